@@ -47,6 +47,7 @@ import numpy as np
 
 from ..core.ctx import exc_label, through_shim
 from ..gen import c13_inputs as I
+from ..gen import c13_siblings as S
 from ..mon.compare import compare_arrays
 
 PROP = "C13"
@@ -71,7 +72,7 @@ FLOORS = {
                               "alone_vs_isolated_compared": 24000, "shared_keys_compared": 35000},
                  "max_skipped_fraction": 0.15},
 }
-EXHAUSTIVE_SPACE = None
+EXHAUSTIVE_SPACE = "sibling programs: every operation of vf.gen.c13_siblings.OPS x every unordered pair of its parameter values (one input seed)"
 CLAIM = ("Every generated tuple of near-identical collections was computed by the real dask.compute together (both orders, "
          "optimize_graph on/off) and each member alone; results were compared with the comparison discipline of the collection "
          "kind, shared graph keys were evaluated in each member's graph, and each member was also built in isolation; held = no "
@@ -94,6 +95,7 @@ DF_PROGS = ["id", "add_s", "sum", "col0", "reset_index", "mp_kw", "to_array", "i
 DF_ANY = ["id", "col0", "reset_index", "mp_kw", "index", "assign_s", "head"]
 BAG_PROGS = ["id", "map_kw", "filter", "count", "map_repr", "map_pos"]
 DEL_PROGS = ["call", "call_kw", "call_pos", "literal", "nested", "op_add", "getitem", "call_list"]
+DEL_SIMILAR = ["call", "call_kw", "call_pos", "literal", "nested", "call_list", "call_col0", "call_index", "call_dtype", "call_dict"]
 
 _STATE = {}
 
@@ -105,8 +107,14 @@ def _ensure_env():
         from ..shim import install_pyarrow
 
         install_pyarrow()
+        import dask
         import dask.dataframe  # noqa: F401
 
+        # builders that compute while they build (Bag.repartition(partition_size=..), Bag.to_dataframe) must not start
+        # a process pool inside a shard
+        # the tasks shuffle is deterministic; the partd ("disk") shuffle that dask picks for the sync scheduler returns the rows
+        # of a partition in an order that changes between two computations of the SAME collection (see Calibration)
+        dask.config.set({"scheduler": "sync", "dataframe.shuffle.method": "tasks"})
         _STATE["env"] = True
 
 
@@ -115,11 +123,13 @@ def shard_setup(tier, seed):
     d = tempfile.mkdtemp(prefix="vf-c13-")
     _STATE["dir"] = d
     _STATE["mm"] = I.MemmapFiles(d)
+    _STATE["sib"] = S.Env(d)
 
 
 def shard_finish():
     d = _STATE.get("dir")
     _STATE.pop("mm", None)
+    _STATE.pop("sib", None)
     gc.collect()
     if d:
         shutil.rmtree(d, ignore_errors=True)
@@ -140,6 +150,24 @@ def f_df_kw(df, k=None):
         df["kw"] = "%s:%r" % (type(k).__name__, k if not isinstance(k, np.ndarray) else (str(k.dtype), k.tolist()))
         return df
     return df.astype(object).map(lambda v: "%s:%r:%r" % (type(k).__name__, k if not isinstance(k, np.ndarray) else k.tolist(), v))
+
+
+def f_describe(df):
+    """one-column object frame describing a partition: what similar inputs differ in"""
+    import pandas as pd
+
+    return pd.DataFrame({"what": [repr(_pd_picture(df))]})
+
+
+def _focus(pdf):
+    """(frame with a default index, name of the column that holds the family's data)"""
+    import pandas as pd
+
+    fr = pdf.to_frame(name=pdf.name if pdf.name is not None else "x") if isinstance(pdf, pd.Series) else pdf
+    default = isinstance(fr.index, pd.RangeIndex) and fr.index.name is None
+    if default:
+        return fr, fr.columns[0], False
+    return fr, None, True
 
 
 def f_pack(x, k=None):
@@ -171,24 +199,65 @@ def _plain(v):
         return (type(v).__name__, [_plain(e) for e in v])
     if isinstance(v, dict):
         return ("dict", [(_plain(k), _plain(x)) for k, x in v.items()])
-    try:
-        import pandas as pd
+    import pandas as pd
 
-        if isinstance(v, (pd.DataFrame, pd.Series, pd.Index)):
-            return (type(v).__name__, v.to_json(orient="split", default_handler=str), [str(d) for d in (v.dtypes if hasattr(v, "dtypes") and hasattr(v.dtypes, "__iter__") else [v.dtype])], str(v.index.dtype) if hasattr(v, "index") else "")
-    except Exception:  # noqa: BLE001
-        pass
+    if isinstance(v, (pd.DataFrame, pd.Series, pd.Index, pd.api.extensions.ExtensionArray)):
+        return _pd_picture(v)
+    if isinstance(v, (np.dtype, pd.api.extensions.ExtensionDtype)):
+        return ("dtype", repr(v))
+    if v is pd.NA:
+        return "<NA>"
+    if v is pd.NaT:
+        return "NaT"
     return v
+
+
+def _values_picture(a):
+    """dtype (categories in their order, ordered flag) and the elements with their types"""
+    import pandas as pd
+
+    dt = a.dtype
+    extra = ()
+    if isinstance(dt, pd.CategoricalDtype):
+        extra = ([repr(c) for c in dt.categories], str(dt.categories.dtype), bool(dt.ordered))
+    return (str(dt), extra, [repr(x) for x in a])
+
+
+def _index_picture(ix):
+    import pandas as pd
+
+    if isinstance(ix, pd.MultiIndex):
+        return ("MultiIndex", [repr(n) for n in ix.names], [_values_picture(ix.get_level_values(i)) for i in range(ix.nlevels)])
+    return (type(ix).__name__, repr(ix.name), _values_picture(ix))
+
+
+def _pd_picture(v):
+    """structural picture of a pandas object: what two results must agree on to be the same value (types of the labels,
+    dtypes, category order, time zone and unit through the dtype string and the element reprs, axis names)"""
+    import pandas as pd
+
+    if isinstance(v, pd.DataFrame):
+        return ("DataFrame", _index_picture(v.columns), _index_picture(v.index), [_values_picture(v.iloc[:, j].array) for j in range(v.shape[1])])
+    if isinstance(v, pd.Series):
+        return ("Series", repr(v.name), _index_picture(v.index), _values_picture(v.array))
+    if isinstance(v, pd.Index):
+        return _index_picture(v)
+    return (type(v).__name__, _values_picture(v))
 
 
 # ---- case generation ------------------------------------------------------------------------------------------------------
 
 FAMILY_WEIGHTS = [("layout", 14), ("shape", 8), ("dtype", 14), ("one-element", 10), ("strings-resplit", 8), ("object-elements", 5),
                   ("masked", 4), ("index-or-columns", 12), ("pandas-strings-resplit", 5), ("python-sequences", 12),
-                  ("strings-resplit-at-hyphen", 3), ("pandas-strings-resplit-at-hyphen", 2), ("memmap-same-file", 3), ("column-data-permuted", 3)]
+                  ("strings-resplit-at-hyphen", 3), ("pandas-strings-resplit-at-hyphen", 2), ("memmap-same-file", 3), ("column-data-permuted", 3),
+                  # unequal-but-similar pandas data (c13_inputs.PANDAS_SIMILAR)
+                  ("categorical", 12), ("nullable-vs-numpy", 8), ("object-vs-str", 7), ("axis-names", 6), ("multiindex", 6),
+                  ("timezones", 6), ("column-order", 5)]
 NVARIANTS = {"layout": 11, "shape": 6, "dtype": 21, "one-element": 4, "strings-resplit": 7, "object-elements": 3, "masked": 6,
              "index-or-columns": 15, "pandas-strings-resplit": 2, "python-sequences": 4, "strings-resplit-at-hyphen": 2,
-             "pandas-strings-resplit-at-hyphen": 2, "memmap-same-file": 11, "column-data-permuted": 6}
+             "pandas-strings-resplit-at-hyphen": 2, "memmap-same-file": 11, "column-data-permuted": 6,
+             "categorical": 12, "nullable-vs-numpy": 11, "object-vs-str": 8, "axis-names": 12, "multiindex": 12, "timezones": 13,
+             "column-order": 8}
 FAMILY_KINDS = {
     "layout": ["array", "array", "dataframe", "delayed"],
     "shape": ["array", "array", "delayed", "bag"],
@@ -205,12 +274,19 @@ FAMILY_KINDS = {
     "memmap-same-file": ["array", "array", "delayed"],
     "column-data-permuted": ["dataframe", "dataframe", "delayed"],
 }
+for _f in I.PANDAS_SIMILAR:
+    FAMILY_KINDS[_f] = ["dataframe", "dataframe", "dataframe", "dataframe", "delayed", "delayed", "bag", "array"]
 NUMERIC_FAMILIES = {"layout", "shape", "one-element", "memmap-same-file", "index-or-columns", "column-data-permuted"}
+DF_SIMILAR = ["id", "id", "col0", "reset_index", "mp_kw", "index", "assign_s", "head", "describe_mp", "describe_mp", "to_array_any",
+              "groupby_first_col", "sort_first_col", "drop_duplicates", "value_counts_col0", "index_to_series"]
 
 
 def _progs(kind, fam, rng):
     if kind == "array":
         return ARR_NUM if fam in NUMERIC_FAMILIES or (fam == "dtype" and rng.random() < 0.5) else ARR_ANY
+    if fam in I.PANDAS_SIMILAR:
+        return {"array": ["id", "slice", "eq_first", "stack_self", "mb_kw"], "dataframe": DF_SIMILAR, "bag": ["id", "map_kw", "map_repr", "count"],
+                "delayed": DEL_SIMILAR}[kind]
     if kind == "dataframe":
         return DF_PROGS if fam in NUMERIC_FAMILIES or fam == "dtype" else DF_ANY
     if kind == "bag":
@@ -219,8 +295,9 @@ def _progs(kind, fam, rng):
 
 
 def cases(tier, seed):
+    yield from _sibling_cases(tier, seed)
     rng = random.Random(seed * 7727 + 13)
-    n = 2000 if tier == "quick" else 20000
+    n = 2600 if tier == "quick" else 26000
     fams = [f for f, w in FAMILY_WEIGHTS for _ in range(w)]
     for _ in range(n):
         fam = rng.choice(fams)
@@ -254,6 +331,25 @@ def cases(tier, seed):
             m["diff"] = what
             members.append(m)
         yield {"family": fam, "fseed": fseed, "members": members}
+
+
+def _sibling_cases(tier, seed):
+    """complete: every operation x every unordered pair of its parameter values (one input seed derived from the run seed);
+    then seeded: random operations with 2-3 values and other input seeds"""
+    import itertools
+
+    names = S.names()
+    for name in names:
+        nv = len(S.OPS[name][2])
+        for a, b in itertools.combinations(range(nv), 2):
+            yield {"space": "exhaustive", "family": "siblings", "op": name, "values": [a, b], "seed": seed % 5}
+    rng = random.Random(seed * 4241 + 29)
+    for _ in range(250 if tier == "quick" else 9000):
+        name = rng.choice(names)
+        nv = len(S.OPS[name][2])
+        k = 3 if nv >= 3 and rng.random() < 0.5 else 2
+        vals = rng.sample(range(nv), k)
+        yield {"family": "siblings", "op": name, "values": vals, "seed": rng.randrange(50)}
 
 
 # ---- building -------------------------------------------------------------------------------------------------------------
@@ -314,7 +410,7 @@ class _Skip(Exception):
     pass
 
 
-def build(member, variants, idx):
+def build(member, variants, idx, fam=None):
     """one collection from its description (fresh input objects on every call)"""
     import dask
     import dask.array as da
@@ -328,9 +424,15 @@ def build(member, variants, idx):
     if kind == "array":
         import pandas as pd
 
-        if isinstance(v, (pd.DataFrame, pd.Series)):
+        if fam in I.PANDAS_SIMILAR:
+            # the pandas object itself goes to from_array where it accepts it (numpy-dtype Series / Index, MultiIndex):
+            # its token is then made by the pandas normalizers
+            fr, col, in_index = _focus(v)
+            src = fr.index if in_index else fr[col]
+            v = src if (isinstance(src.dtype, np.dtype) and src.dtype.kind != "O") or isinstance(src, pd.MultiIndex) else src.to_numpy()
+        elif isinstance(v, (pd.DataFrame, pd.Series)):
             v = v.to_numpy()
-        if not isinstance(v, np.ndarray):
+        if not isinstance(v, (np.ndarray, pd.Series, pd.Index)):
             v = np.asarray(v, dtype=object if isinstance(v, (list, tuple)) and any(isinstance(e, (list, tuple, dict, str, bytes)) for e in v) else None)
         kw = {}
         if member["name"] == "false":
@@ -409,9 +511,30 @@ def build(member, variants, idx):
             return x.assign(z=s) if hasattr(pdf, "columns") else x
         if prog == "head":
             return x.head(2, npartitions=-1, compute=False)
+        if prog == "describe_mp":
+            import pandas as pd
+
+            return x.map_partitions(f_describe, meta=pd.DataFrame({"what": pd.Series([], dtype=object)}))
+        if prog == "to_array_any":
+            return x.to_dask_array(lengths=True)
+        if prog == "index_to_series":
+            return x.index.to_series()
+        if prog in ("groupby_first_col", "sort_first_col", "drop_duplicates", "value_counts_col0"):
+            fr, col, in_index = _focus(pdf)
+            y = x.to_frame(name=fr.columns[0]) if not hasattr(pdf, "columns") else x
+            if in_index:
+                y = y.reset_index()
+                col = y.columns[0]
+            if prog == "groupby_first_col":
+                return y.groupby(col, observed=False).size()
+            if prog == "sort_first_col":
+                return y.sort_values(col)
+            if prog == "drop_duplicates":
+                return y.drop_duplicates(subset=[col])
+            return y[col].value_counts()
         raise AssertionError(prog)
     if kind == "bag":
-        seq = _to_seq(v)
+        seq = [v, 0] if fam in I.PANDAS_SIMILAR else _to_seq(v)
         nparts = (1, 2, 3, None)[member["chunks"]]
         x = db.from_sequence(seq, npartitions=nparts) if nparts else db.from_sequence(seq, partition_size=2)
         if prog == "id":
@@ -445,6 +568,15 @@ def build(member, variants, idx):
         return d(v, pure=True)[0]
     if prog == "call_list":
         return d(f_pack_list, pure=True)([v, s], k=s)
+    if prog in ("call_col0", "call_index", "call_dtype", "call_dict"):
+        fr, col, in_index = _focus(v)
+        if prog == "call_col0":
+            return d(f_pack, pure=True)(fr.index.array if in_index and not hasattr(fr.index, "levels") else fr.iloc[:, 0].array)
+        if prog == "call_index":
+            return d(f_pack, pure=True)(fr.index, k=fr.columns)
+        if prog == "call_dtype":
+            return d(f_pack, pure=True)(fr.index.dtype if in_index else fr.dtypes.iloc[0], k=s)
+        return d(f_pack, pure=True)({"x": v, "n": 1}, k=[v.index])
     raise AssertionError(prog)
 
 
@@ -470,6 +602,10 @@ def differs(a, b):
 
 def _differs(a, b):
     import pandas as pd
+
+    if hasattr(a, "__next__") or hasattr(b, "__next__"):
+        # one-shot iterators / generators (values of intermediate bag keys): nothing to compare without consuming them
+        return "uncomparable", "iterator"
 
     if isinstance(a, (pd.DataFrame, pd.Series, pd.Index)) or isinstance(b, (pd.DataFrame, pd.Series, pd.Index)):
         if type(a) is not type(b):
@@ -513,9 +649,9 @@ def _kind_of(c):
 
 def run_case(case, ctx):
     _ensure_env()
-    import dask
-
     fam = case["family"]
+    if fam == "siblings":
+        return _run_siblings(case, ctx)
     members = case["members"]
     ctx.op("family:" + fam)
     for m in members[1:]:
@@ -530,49 +666,167 @@ def run_case(case, ctx):
         return
     tags = [variants[m["var"] % len(variants)][0] for m in members]
     ctx.nontrivial = len({(t, m["s"], m["kind"], m["prog"], m["kwpos"]) for t, m in zip(tags, members)}) >= 2
-    OG = (True, False)
+    builders = [(lambda m=m, i=i: build(m, variants, i, fam)) for i, m in enumerate(members)]
+    done = _judge(ctx, builders, [m["kind"] for m in members], tags, FAMILY_LABEL.get(fam, fam), [m["prog"] for m in members])
+    if done:
+        if fam in I.PANDAS_SIMILAR:
+            ctx.count("pandas_similar_cases")
+            ctx.count("pandas_similar:" + fam)
+            if len(set(tags)) >= 2:
+                ctx.count("pandas_similar_cases_with_different_variants")
+        ctx.sample = {"family": fam, "variants": tags, "kinds": [m["kind"] for m in members], "programs": [m["prog"] for m in members],
+                      "differs_in": [m.get("diff") for m in members[1:]]}
 
+
+def _run_siblings(case, ctx):
+    """the SAME input, one result-relevant parameter changed: the members of the case are the values case["values"] of the
+    one parameter of operation case["op"] (vf/gen/c13_siblings.py)"""
+    name = case["op"]
+    api, param, values, fn = S.OPS[name]
+    if "sib" not in _STATE:
+        _STATE["dir"] = _STATE.get("dir") or tempfile.mkdtemp(prefix="vf-c13-")
+        _STATE["sib"] = S.Env(_STATE["dir"])
+    env = _STATE["sib"]
+    idx = case["values"]
+    ctx.op("family:siblings")
+    ctx.op("siblings:" + name)
+    ctx.sig = ("siblings", name, idx, case["seed"])
+    tags = ["%s=%r" % (param, values[i]) for i in idx]
+    builders = [(lambda i=i: fn(env, case["seed"], values[i])) for i in idx]
+    opname = name.split("/", 1)[1]
+    done = _judge(ctx, builders, [api] * len(idx), tags, "siblings:" + opname, [opname] * len(idx), combine=True, sibling_api=api)
+    if done:
+        ctx.count("sibling_cases")
+        ctx.count("sibling_cases:" + api)
+        ctx.distinct("sibling_operations", name)
+        ctx.sample = {"family": "siblings", "op": name, "values": tags, "seed": case["seed"]}
+
+
+def _combined(cols, api, alone_vals):
+    """one collection holding all members (concatenate / concat / delayed list), or None where that is not natural:
+    returns (collection, splitter(result) -> list of per-member values)"""
+    import dask
+    import dask.array as da
+    import dask.bag as db
+    import dask.dataframe as dd
+    import pandas as pd
+
+    kinds = {_kind_of(c) for c in cols}
+    if len(kinds) != 1:
+        return None
+    kind = kinds.pop()
+    if kind == "array":
+        if any(np.isnan(c.shape).any() if c.shape else False for c in cols) or len({str(c.dtype) for c in cols}) != 1 \
+                or any(isinstance(v, np.ma.MaskedArray) for v in alone_vals):
+            return None
+        flat = [c.reshape(-1) for c in cols]
+        sizes = [int(np.prod(c.shape)) if c.shape else 1 for c in cols]
+        shapes = [tuple(c.shape) for c in cols]
+
+        def split(r):
+            out, k = [], 0
+            for n, shp in zip(sizes, shapes):
+                piece = r[k:k + n].reshape(shp)
+                out.append(piece if shp else piece[()])
+                k += n
+            return out
+        return da.concatenate(flat), split
+    if kind == "dataframe":
+        if not all(isinstance(v, pd.DataFrame) for v in alone_vals) and not all(isinstance(v, pd.Series) for v in alone_vals):
+            return None
+        if isinstance(alone_vals[0], pd.DataFrame):
+            if any(list(v.columns) != list(alone_vals[0].columns) or list(map(str, v.dtypes)) != list(map(str, alone_vals[0].dtypes))
+                   or v.columns.names != alone_vals[0].columns.names for v in alone_vals):
+                return None
+        elif any(str(v.dtype) != str(alone_vals[0].dtype) or v.name != alone_vals[0].name for v in alone_vals):
+            return None
+        if any(str(v.index.dtype) != str(alone_vals[0].index.dtype) or v.index.names != alone_vals[0].index.names
+               or type(v.index) is not type(alone_vals[0].index) for v in alone_vals):
+            return None
+        if any(not hasattr(c, "npartitions") or not hasattr(c, "divisions") for c in cols):
+            return None
+        lens = [len(v) for v in alone_vals]
+
+        def split(r):
+            out, k = [], 0
+            for n in lens:
+                out.append(r.iloc[k:k + n])
+                k += n
+            return out
+        return dd.concat(list(cols)), split
+    if kind == "bag":
+        if any(not hasattr(c, "npartitions") for c in cols) or not all(isinstance(v, list) for v in alone_vals):
+            return None
+        lens = [len(v) for v in alone_vals]
+
+        def split(r):
+            out, k = [], 0
+            for n in lens:
+                out.append(r[k:k + n])
+                k += n
+            return out
+        return db.concat(list(cols)), split
+    return dask.delayed(list(cols)), (lambda r: list(r))
+
+
+def _judge(ctx, builders, kinds, tags, famlabel, progs, combine=False, sibling_api=None):
+    """the oracle of the statement on one tuple of collections given by thunks that build them afresh.
+    Returns True when the tuple was judged (False: outside the statement / environment)."""
+    import dask
+
+    n = len(builders)
+    OG = (True, False)
     with warnings.catch_warnings():
         warnings.simplefilter("ignore")
         # ---- 1. every member built and computed alone, nothing else alive ----------------------------------------------
-        need_gc = any(m["kind"] == "dataframe" for m in members)  # expression singletons live in a weak registry
+        need_gc = any(k == "dataframe" for k in kinds)  # expression singletons live in a weak registry
         if need_gc:
             gc.collect()
         iso = []
-        for i, m in enumerate(members):
+        for i in range(n):
             try:
-                c = build(m, variants, i)
+                c = builders[i]()
                 vals = {og: c.compute(scheduler="sync", optimize_graph=og) for og in OG}
             except _Skip as ex:
                 ctx.reject(str(ex))
-                return
+                return False
             except NotImplementedError as ex:
                 ctx.unsupported(str(ex))
-                return
+                return False
             except Exception as ex:  # noqa: BLE001  the program is refused for this input even alone: not this property
-                ctx.reject("alone: %s: %s" % (type(ex).__name__, ex))
-                return
+                if through_shim(ex):
+                    ctx.envlimited(str(ex))
+                    return False
+                ctx.reject("alone: %s: %s" % (type(ex).__name__, " ".join(str(ex).split())[:120]))
+                return False
             iso.append(vals)
             del c
             if need_gc:
                 gc.collect()
-        ctx.count("built_alone", len(members))
+        ctx.count("built_alone", n)
+        if sibling_api is not None:
+            # the parameter is result-relevant when the members' stand-alone values differ (or the same values are cut
+            # into other blocks, which the *-block-shapes / *-partition-lengths programs turn into values)
+            if any(differs(iso[0][True], iso[i][True]) is not None for i in range(1, n)):
+                ctx.count("sibling_cases_with_different_values")
+                ctx.count("sibling_cases_with_different_values:" + sibling_api)
+                ctx.nontrivial = True
+            else:
+                ctx.count("sibling_cases_with_equal_values")
 
         # ---- 2. all members built next to each other -------------------------------------------------------------------
-        famlabel = FAMILY_LABEL.get(fam, fam)
-        kinds = [m["kind"] for m in members]
         cols = []
-        for i, m in enumerate(members):
+        for i in range(n):
             try:
-                cols.append(build(m, variants, i))
+                cols.append(builders[i]())
             except Exception as ex:  # noqa: BLE001  it could be built alone a moment ago
                 if through_shim(ex):
                     ctx.envlimited(str(ex))
-                    return
+                    return False
                 ctx.violation("built-next-to-siblings-vs-built-alone:%s:%s:raises" % (kinds[i], famlabel),
                               "member %d (%s, variant %s) cannot be built next to its siblings: %s: %s" % (
-                                  i, m["prog"], tags[i], type(ex).__name__, ex), variants=tags, where=exc_label(ex))
-                return
+                                  i, progs[i], tags[i], type(ex).__name__, ex), variants=tags, where=exc_label(ex))
+                return False
         reported = set()
 
         def report(i, facet, d, other=None):
@@ -585,12 +839,12 @@ def run_case(case, ctx):
             reported.add(i)
             sib = None
             if other is not None:
-                for j in range(len(members)):
+                for j in range(n):
                     if j != i and differs(other, iso[j][True]) is None and differs(iso[i][True], iso[j][True]) is not None:
                         sib = j
                         break
             ctx.violation("%s:%s:%s:result-differs" % (facet, kinds[i], famlabel),
-                          "member %d (%s, variant %s): %s: %s%s" % (i, members[i]["prog"], tags[i], d[0], d[1],
+                          "member %d (%s, variant %s): %s: %s%s" % (i, progs[i], tags[i], d[0], d[1],
                                                                  "; equals what sibling %d (variant %s) gives alone" % (sib, tags[sib]) if sib is not None else ""),
                           variants=tags, shared_keys=_shared_key_names(cols))
 
@@ -601,7 +855,7 @@ def run_case(case, ctx):
                 alone.append({og: c.compute(scheduler="sync", optimize_graph=og) for og in OG})
             except Exception as ex:  # noqa: BLE001
                 ctx.exception(ex, prefix="alone-next-to-siblings:%s:%s" % (kinds[i], famlabel))
-                return
+                return False
         for og in OG:
             for order in ("fwd", "rev"):
                 idx = list(range(len(cols)))
@@ -619,6 +873,28 @@ def run_case(case, ctx):
                     if d:
                         report(i, "together-vs-alone", d, res[pos])
 
+        # ---- 2b. one graph through a combining operation (concatenate / concat / a delayed list) ------------------------
+        if combine:
+            try:
+                comb = _combined(cols, kinds[0], [iso[i][True] for i in range(n)])
+            except Exception:  # noqa: BLE001  dask refuses to combine these (other columns, unknown shapes ..): no verdict
+                comb = None
+                ctx.count("combined_refused")
+            if comb is not None:
+                coll, split = comb
+                try:
+                    pieces = split(coll.compute(scheduler="sync"))
+                except Exception as ex:  # noqa: BLE001  each member computes alone, the combination of them raises
+                    ctx.exception(ex, prefix="combined:%s:%s" % (kinds[0], famlabel), variants=tags)
+                    pieces = None
+                if pieces is not None:
+                    ctx.count("combined_computes")
+                    for i in range(n):
+                        ctx.count("combined_results_compared")
+                        d = _differs_combined(pieces[i], iso[i][True], kinds[0])
+                        if d:
+                            report(i, "combined-vs-alone", d, None)
+
         # ---- 3. mechanism: shared keys with different values ---------------------------------------------------------------
         _shared_keys(ctx, cols, kinds, famlabel, tags, reported)
 
@@ -628,11 +904,27 @@ def run_case(case, ctx):
             d = differs(alone[i][True], iso[i][True])
             if d:
                 report(i, "built-next-to-siblings-vs-built-alone", d, alone[i][True])
-        ctx.sample = {"family": fam, "variants": tags, "kinds": kinds, "programs": [m["prog"] for m in members],
-                      "differs_in": [m.get("diff") for m in members[1:]]}
         del cols, alone
     if need_gc:
         gc.collect()
+    return True
+
+
+def _differs_combined(piece, alone, kind):
+    """a member's rows / elements inside the combined collection against its stand-alone value (the combination keeps
+    values, dtype and order; a frame's index labels are kept, the freq / RangeIndex-ness of the index is not)"""
+    import pandas as pd
+
+    if kind == "dataframe" and isinstance(alone, (pd.DataFrame, pd.Series)):
+        try:
+            if isinstance(alone, pd.DataFrame):
+                pd.testing.assert_frame_equal(piece, alone, check_exact=True, check_index_type=False, check_freq=False)
+            else:
+                pd.testing.assert_series_equal(piece, alone, check_exact=True, check_index_type=False, check_freq=False)
+        except AssertionError as ex:
+            return "values", " ".join(str(ex).split())[:300]
+        return None
+    return differs(piece, alone)
 
 
 def _graph(c):
